@@ -238,9 +238,6 @@ func ScanWAL(b []byte) WALInfo {
 			break
 		}
 		pgno := binary.BigEndian.Uint32(fh[0:])
-		if pgno == 0 {
-			break
-		}
 		c0, c1 = walChecksum(bo, c0, c1, fh[:8])
 		c0, c1 = walChecksum(bo, c0, c1, b[off+24:off+frameSize])
 		if c0 != binary.BigEndian.Uint32(fh[16:]) || c1 != binary.BigEndian.Uint32(fh[20:]) {
